@@ -235,6 +235,9 @@ def run_check(mod, tier: str, seed: int, workers: Optional[int] = None) -> int:
 
     for kid, k in sorted(known_hits.items()):
         print(f"KNOWN-FINDING: property={prop} {k['summary']}")
+    if os.environ.get("VERIF_DEBUG"):
+        for sig, n in sorted(total.viol_counts.items()):
+            print(f"  [debug] {n:6d} x {sig}")
     rc = 0
     if new_violations:
         os.makedirs(REPLAY_DIR, exist_ok=True)
